@@ -29,8 +29,10 @@ func main() {
 		warmup()
 	}
 	err := fn(os.Args[2:])
-	if ctxFile != "" {
-		os.Remove(ctxFile) // scratch context file of the re-serialisation renderer
+	for _, f := range []string{ctxFile, rtCtxFile} {
+		if f != "" {
+			os.Remove(f) // scratch context files of the renderers
+		}
 	}
 	if err != nil {
 		fmt.Fprintln(os.Stderr, "acvh:", err)
